@@ -1624,6 +1624,27 @@ class AsType(Elemwise):
             meta = clear_known_categories(meta)
         return meta
 
+    def _filter_passthrough_available(self, parent, dependents):
+        if not super()._filter_passthrough_available(parent, dependents):
+            return False
+        # After the pushdown the predicate is evaluated on the frame before the
+        # cast, so it must not read a column whose dtype changes
+        dtypes = self.operand("dtypes")
+        cast = set(dtypes) if isinstance(dtypes, dict) else None
+        predicate = parent.predicate
+        if predicate._name == self._name:
+            return False
+        for node in predicate.walk():
+            if not any(
+                isinstance(op, Expr) and op._name == self._name for op in node.operands
+            ):
+                continue
+            if not isinstance(node, Projection) or cast is None:
+                return False
+            if cast & set(_convert_to_list(node.operand("columns"))):
+                return False
+        return True
+
     def _simplify_up(self, parent, dependents):
         if isinstance(parent, Filter) and self._filter_passthrough_available(
             parent, dependents
